@@ -36,6 +36,44 @@ LEVEL_TEXT = (
 MUTATE = "geneticengine.representations.tree.treebased:mutate"
 
 
+def rule_r7(ctx: Ctx) -> None:
+    """The context stored on a created value is the context it was created under: variation (R4) re-creates a node under its
+    stored context, so a stored context that is one level down makes every mutation of that node drift one level deeper.
+    create_node is interpreted (sa/treemodel.py) per type form with a context (depth 2, nodes 1, expansions 1); every store of
+    a synthesis context on the value being returned must hold depth 2."""
+    from ..modelinterp import Budget, Obj
+    from ..treemodel import (A, ABSTRACT, ANN_INT, ANN_LIST, CREATE_NODE, LIST_A, PROD, TUPLE_AB, TreeModel, UNION_AB, create_node_runs)
+    fn = ctx.fn(CREATE_NODE)
+    model = TreeModel(ctx, fields={PROD: [("f1", A), ("f2", A)]})
+    n = 0
+    for form, sym in (("tuple", TUPLE_AB), ("list", LIST_A), ("annotated", ANN_INT), ("refined list", ANN_LIST), ("union", UNION_AB),
+                      ("abstract", ABSTRACT), ("concrete", PROD)):
+        try:
+            runs = create_node_runs(ctx, model, sym, depth=2)
+        except Budget:
+            ctx.ob("C03.R7", fn, fn.node, f"{form}: the stored synthesis context is the one the value was created under", None, "too many interpretations")
+            continue
+        stores = []
+        for trace, rv, notes in runs:
+            if any(e.kind == "raise" for e in trace):
+                continue
+            for e in trace:
+                if e.kind == "store" and e.name.endswith(".gengy_synthesis_context") and e.args:
+                    c_ = e.args[0]
+                    stores.append((c_.fields.get("depth") if isinstance(c_, Obj) else None, e.node))
+        if not stores:
+            continue
+        n += 1
+        bad = [(d_, nd) for d_, nd in stores if d_ != 2]
+        und = [x for x in bad if not isinstance(x[0], int)]
+        ctx.ob("C03.R7", fn, (bad[0][1] if bad else stores[0][1]) or fn.node, f"{form}: the stored synthesis context is the one the value was created under",
+               (None if und else False) if bad else True,
+               "" if not bad else (f"a {form} value created under a context at depth 2 stores a context at depth {bad[0][0]}: mutation re-creates the node under its "
+                                   f"stored context, so every mutation of such a node moves it one level down and the limit is exceeded after a few"
+                                   if not und else "the stored context is not followed"))
+    ctx.floor("C03.R7", n, 4, "type forms that store a context")
+
+
 def rule_r4(ctx: Ctx) -> None:
     """Tree variation re-creates subtrees under the stored context of the node it replaces: mutate is interpreted
     (sa/treemodel.py) on a node selected for replacement that carries a stored synthesis context at depth 5 - every
@@ -104,4 +142,6 @@ def run(ctx: Ctx) -> None:
     filter_rule(ctx, "C03.R2")
     validate_rule(ctx, "C03.R3")
     rule_r4(ctx)
+    ctx.rule("C03.R7", "the synthesis context stored on a created value is the context it was created under (variation re-creates under it)")
+    rule_r7(ctx)
     ctx.assumptions += ["the distance table itself is exact for the forms it covers (its value is a fixpoint: C05)"]
